@@ -81,7 +81,9 @@ LoadCase(opsets, kinds, nograph, perturb, feat) ==
               ELSE LoadOutcome(opsets, kinds))]
 
 \* ---- unknown operator types at every position of a chain (also directly after a multi-output node)
-UnknownOps == {"Gelu", "relu", "RELU", "", "Identity", "LayerNormalization", "com.x.Custom", "Relu ", "MaxPool"}
+UnknownOps == {"Gelu", "relu", "RELU", "", "Identity", "LayerNormalization", "com.x.Custom", "Relu ", "MaxPool",
+               \* names that are dangerous inside a format string, a path or a lookup key
+               "Relu%", "%v", "%s", "Top%dK", "100%Relu", "%w", "Re\\lu", "Relu/Add", "Add,Relu"}
 ChainWith(unknown, pos, n, multi) ==     \* n nodes; node pos is of the unknown type
    [k \in 1..n |->
       LET inName == IF k = 1 THEN "x" ELSE "t" \o ToString(k - 1) IN
